@@ -614,6 +614,21 @@ impl SpanInfo {
 }
 
 /// ## Parsing
+
+/// Offset of the tab, carriage return or line feed that follows `<?xml` at the
+/// very start of a document (after an optional byte order mark), if any.
+fn xml_declaration_separator(xml: &str) -> Option<usize> {
+    let start = if xml.starts_with('\u{feff}') {
+        '\u{feff}'.len_utf8()
+    } else {
+        0
+    };
+    let rest = xml[start..].strip_prefix("<?xml")?;
+    match rest.as_bytes().first() {
+        Some(b'\t') | Some(b'\r') | Some(b'\n') => Some(start + "<?xml".len()),
+        _ => None,
+    }
+}
 impl Xot {
     /// Parse a string containing XML into a document node. Retain span information.
     ///
@@ -621,6 +636,21 @@ impl Xot {
     /// [`SpanInfo`](`crate::SpanInfo`) which describes where nodes in the
     /// tree are located in the source text.
     pub fn parse_with_span_info(&mut self, xml: &str) -> Result<(Node, SpanInfo), ParseError> {
+        // The tokenizer only recognises an XML declaration that continues
+        // with a space after `<?xml`; XML allows a tab or a line end there as
+        // well. Replacing that one character by a space changes no offset.
+        let respelled;
+        let xml = match xml_declaration_separator(xml) {
+            Some(at) => {
+                let mut s = String::with_capacity(xml.len());
+                s.push_str(&xml[..at]);
+                s.push(' ');
+                s.push_str(&xml[at + 1..]);
+                respelled = s;
+                respelled.as_str()
+            }
+            None => xml,
+        };
         let tokenizer = Tokenizer::from(xml);
         let (span_info, builder) = self._parse(tokenizer)?;
         if let Some(element_builder) = &builder.element_builder {
